@@ -354,7 +354,7 @@ def run_same_region(ctx, cmd, prefix, n, corpus, a_key, b_key, band_fn, r2_fn, e
 def run_c17(ctx):
     band = lambda m: geom.closed_edges(m['subject']) + geom.closed_edges(m['clip'] or [])
     ent = lambda m: dict(_c01_entry(m), variant=m.get('variant'), v_subject=m.get('v_subject'), v_clip=m.get('v_clip'), v_ct=m.get('v_ct'), v_fr=m.get('v_fr'))
-    return run_same_region(ctx, 'c17', 'c17-', _tier(ctx, 1000, 10000), 'none', 'out_base', 'out_variant_in_base_frame',
+    return run_same_region(ctx, 'c17', 'c17-', _tier(ctx, 1000, 10000), 'c01.jsonl', 'out_base', 'out_variant_in_base_frame',
                            band, lambda m: 4, ent, lambda m: 'respelling %s (clip type %d, fill rule %d)' % (m.get('variant'), m['ct'], m['fr']))
 
 
@@ -1585,7 +1585,7 @@ PROPS = {
     'C17': {
         'run': run_c17, 'level': 'proof', 'trust': REGION_TRUST + ['determinism: every call is made twice on equal inputs and compared bytewise by the harness (observed, not proved, for the sweep)',
                                                                       'K3: the three sort orderings of the sweep (horzSegSort, the processIntersectList and reset closures) are translated from /repo/clipper_base.go on every run by harness/comparators.go (a go/ast expression translator: if/return/||/&&/comparisons/nil tests/cmp.Compare over field paths; compared objects abstract) into Gen/Comparators_gen.v; the translator is trusted, an untranslatable comparator breaks the theorems'],
-        'rule': 'C01-style random inputs (a fifth tie-heavy lattice polygons, a fifth with redundant collinear vertices); per base input 5-6 respellings (path permutation, start rotation, vertex/closing-vertex duplication, reversal under the matching fill-rule change, subject/clip exchange, one of the 7 non-trivial lattice symmetries); distinct = distinct (input, variant)',
+        'rule': 'corpus/c01.jsonl first (without the witnesses of recorded findings); C01-style random inputs (a fifth tie-heavy lattice polygons, a fifth with redundant collinear vertices); per base input 5-6 respellings (path permutation, start rotation, vertex/closing-vertex duplication, reversal under the matching fill-rule change, subject/clip exchange, one of the 7 non-trivial lattice symmetries); distinct = distinct (input, variant)',
         'assumes': ['orientation-reversing lattice symmetries exchange Positive and Negative (winding numbers negate under reflection)'],
     },
     'C06': {
